@@ -1,5 +1,8 @@
 #![allow(dead_code)]
 mod builtins;
+mod c11;
+mod c17;
+mod check;
 mod runner;
 mod streams;
 mod world;
@@ -74,9 +77,91 @@ fn main() {
             }
             println!("stats={:?} res={:?}", r.stats, r.final_resources);
         }
+        Some("check") => {
+            let id = args.get(2).cloned().unwrap_or_default();
+            let tier = if args.get(3).map(String::as_str) == Some("thorough") { check::Tier::Thorough } else { check::Tier::Quick };
+            let Some(c) = get_check(&id) else {
+                println!("HARNESS-ERROR unknown check {id}");
+                std::process::exit(2);
+            };
+            let seed = std::env::var("VERIF_SEED").ok().and_then(|s| s.parse().ok()).unwrap_or(1u64);
+            let workers = std::env::var("VERIF_WORKERS").ok().and_then(|s| s.parse().ok()).unwrap_or_else(|| {
+                std::thread::available_parallelism().map(|n| n.get() as u64).unwrap_or(4)
+            });
+            let secs = std::env::var("VERIF_SECS").ok().and_then(|s| s.parse().ok());
+            let code = check::orchestrate(c, &check::CheckOpts { tier, seed, workers, secs });
+            std::process::exit(code);
+        }
+        Some("worker") => {
+            let id = args.get(2).cloned().unwrap_or_default();
+            let tier = if args.get(3).map(String::as_str) == Some("thorough") { check::Tier::Thorough } else { check::Tier::Quick };
+            let p = |i: usize| args.get(i).and_then(|s| s.parse::<u64>().ok()).unwrap_or(0);
+            let Some(c) = get_check(&id) else { std::process::exit(2) };
+            let s = check::worker(c, tier, p(4), p(5), p(6).max(1), p(7), p(8).max(1));
+            println!("{}", serde_json::to_string(&s).unwrap());
+        }
+        Some("hashes") => {
+            let id = args.get(2).cloned().unwrap_or_default();
+            let tier = if args.get(3).map(String::as_str) == Some("thorough") { check::Tier::Thorough } else { check::Tier::Quick };
+            let Some(c) = get_check(&id) else { std::process::exit(2) };
+            for s in &args[4..] {
+                let seed: u64 = s.parse().unwrap_or(0);
+                let v = c.execute(&c.generate(seed, tier));
+                println!("{}", serde_json::to_string(&(seed, v.hashes)).unwrap());
+            }
+        }
+        Some("gen") => {
+            let id = args.get(2).cloned().unwrap_or_default();
+            let Some(c) = get_check(&id) else { std::process::exit(2) };
+            let seed: u64 = args.get(3).and_then(|s| s.parse().ok()).unwrap_or(1);
+            println!("{}", serde_json::to_string_pretty(&c.generate(seed, check::Tier::Quick)).unwrap());
+        }
+        Some("exec-case") => {
+            let id = args.get(2).cloned().unwrap_or_default();
+            let Some(c) = get_check(&id) else { std::process::exit(2) };
+            let Some(case) = check::read_stdin_json() else { std::process::exit(2) };
+            let v = c.execute(&case);
+            println!("{}", serde_json::to_string(&v).unwrap());
+        }
+        Some("replay") => {
+            let path = args.get(2).cloned().unwrap_or_default();
+            let Ok(s) = std::fs::read_to_string(&path) else {
+                println!("HARNESS-ERROR cannot read {path}");
+                std::process::exit(2);
+            };
+            let v: serde_json::Value = serde_json::from_str(&s).unwrap_or_default();
+            let id = v["property"].as_str().unwrap_or_default().to_string();
+            let Some(c) = get_check(&id) else { std::process::exit(2) };
+            let verdict = c.execute(&v["case"]);
+            if let Some(e) = verdict.harness_error {
+                println!("HARNESS-ERROR {e}");
+                std::process::exit(2);
+            }
+            match verdict.violation {
+                Some(viol) => {
+                    println!("REPRODUCED property={id} class={} detail={}", viol.class, viol.detail);
+                    if v["class"].as_str().is_some_and(|c| c != viol.class) {
+                        println!("note: recorded class was {}", v["class"]);
+                    }
+                    std::process::exit(1);
+                }
+                None => {
+                    println!("PASS property={id} (no violation on this tree)");
+                    std::process::exit(0);
+                }
+            }
+        }
         _ => {
             eprintln!("usage: brushsim run --script S [--seed N --cap N --strategy S --fe dashc|file|stdin|source|eval]");
             std::process::exit(2);
         }
+    }
+}
+
+fn get_check(id: &str) -> Option<&'static dyn check::Check> {
+    match id {
+        "C11" => Some(&c11::C11),
+        "C17" => Some(&c17::C17),
+        _ => None,
     }
 }
